@@ -17,9 +17,22 @@ Verdict(e) ==
             why |-> "defaulting is not by qualified name: the attributes of the element are not the written ones plus the unwritten declared default",
             text |-> Render(QDoc(c)), expected |-> Pairs(c), observed |-> e.pairs, len |-> e.len]
       ELSE [verdict |-> "ok"]
+\* {"event":"elemq","decl":[b,b,b],"parsed":b,"kids":[{"len":n,"pairs":[..]} x 3]}
+VerdictE(e) ==
+  LET D == { k \in 1..3 : e.decl[k] }
+      bad == { k \in 1..3 : LET got == { <<e.kids[k].pairs[i][1], e.kids[k].pairs[i][2]>> : i \in 1..Len(e.kids[k].pairs) }
+                            IN  got # EPairs(D, k) \/ e.kids[k].len # Cardinality(EPairs(D, k)) }
+  IN  IF ~e.parsed THEN [verdict |-> "VIOLATION", why |-> "a well-formed document was rejected", text |-> Render(EDoc(D))]
+      ELSE IF Len(e.kids) # 3 THEN [verdict |-> "VIOLATION", why |-> "the document element does not have its three children", text |-> Render(EDoc(D))]
+      ELSE IF bad # {} THEN
+           [verdict |-> "VIOLATION",
+            why |-> "an element does not have exactly the defaulted attributes declared for ITS element type (qualified name)",
+            text |-> Render(EDoc(D)), child |-> CHOOSE k \in bad : TRUE, observed |-> e.kids]
+      ELSE [verdict |-> "ok"]
+VerdictAny(e) == IF e.event = "elemq" THEN VerdictE(e) ELSE Verdict(e)
 TInit == l = 1
 TNext == /\ l <= Len(Rec)
-         /\ LET v == Verdict(Rec[l]) IN IF v.verdict = "ok" THEN TRUE ELSE PrintT(<<"VERDICT", ToJson([i |-> l] @@ v)>>)
+         /\ LET v == VerdictAny(Rec[l]) IN IF v.verdict = "ok" THEN TRUE ELSE PrintT(<<"VERDICT", ToJson([i |-> l] @@ v)>>)
          /\ l' = l + 1
 TSpec == TInit /\ [][TNext]_l
 Done == TLCGet("stats").diameter = Len(Rec) + 1 \/ PrintT(<<"TRUNCATED", TLCGet("stats").diameter, Len(Rec)>>)
